@@ -231,6 +231,16 @@ def run(F, R):
             nd = S.nodes[x]
             a1 = terms.render(nd.ctx.bv, nd.ctx.bv.trace_op(nd.term["args"][1]), W, {})
             R.check("C09-R3", "check-argument", "app_responses" in a1 and "@Ok" in a1, "argument is the check result's app_responses", "update_from_omaha argument: " + a1[-120:], nd.loc())
+    # "every app named in the response": the app_responses vectors are the response's apps mapped 1:1 (no filter, no
+    # dropping adaptor) — the construction rule is shared with C04-R3
+    try:
+        from . import c04 as _c04
+        from .c05 import _Alias
+        hdr_ = [cx_ for cx_ in S.ctxs if cx_.bv.body.get("item") == "perform_update_check" or "perform_update_check" in cx_.bv.id]
+        if hdr_:
+            _c04._alignment(_Alias(R, "C04-R3", "C09-R3", "every-response-app:"), sm, hdr_[0])
+    except ImportError:
+        pass
     pcs = [cx for cx in Sr.ctxs if cx.bv.body["kind"] == "coroutine" and _is_ping(cx)]
     if R.floor("C09-R3", "ping function", len(pcs), 1):
         pc = pcs[0]
@@ -295,6 +305,13 @@ def run(F, R):
     got_c = [[it.get("key"), it.get("skip_if")] for it in (cs or {}).get("items", [])]
     R.check("C09-R4", "cohort-fields-serialised-when-present", got_c == [["cohort", "None"], ["cohorthint", "None"], ["cohortname", "None"]], str(got_c),
             "Cohort (request wire format and persisted record) serialises as %s: a field is dropped although it is set" % got_c)
+    ds = _schema.de_schema(W, c, "protocol::Cohort")
+    if ds is None or ds.get("kind") != "struct":
+        R.inconclusive("C09-R4", "cohort-fields-read-by-their-own-name", "no derived struct Deserialize for protocol::Cohort")
+    else:
+        keys_ = [f_["key"] for f_ in ds["fields"]]
+        R.check("C09-R4", "cohort-fields-read-by-their-own-name", keys_ == ["cohort", "cohorthint", "cohortname"] and sorted(ds.get("identifiers") or keys_) == sorted(keys_) and ds.get("constructs") == ["id", "hint", "name"],
+                "cohort/cohorthint/cohortname -> id/hint/name, no other spelling", "Cohort is read from keys %s (visitor answers to %s) into %s: another attribute can be taken for a cohort field" % (keys_, ds.get("identifiers"), ds.get("constructs")))
     pf = [b for b in lib.bodies(c, item="from", impl_self="common::PersistedApp", impl_trait="std::convert::From")]
     if R.floor("C09-R4", "From<&App> for PersistedApp", len(pf), 1):
         s_ = terms.render(BV.of(pf[0]), BV.of(pf[0]).trace_local(0), W, {})
